@@ -166,6 +166,14 @@ func (t *c26Tracker) judge(r *mon.Run, mode string, beacons, res []beacon.Beacon
 	c26Judge(r, "C26:history:", "history_", &st.c26Case, wit, beacons, res, p, stack, sample)
 }
 
+// judgeCtx is judge for a call made with a context of the context dimension
+// (c26ctx.go); the context must be finished.
+func (t *c26Tracker) judgeCtx(r *mon.Run, mode, via string, beacons, res []beacon.Beacon, p any, stack string, sample bool) {
+	st := &t.steps[len(t.steps)-1]
+	wit := &c26HistWitness{Mode: mode, Steps: t.steps}
+	c26JudgeCtx(r, st.Ctx, via, &st.c26Case, wit, beacons, res, p, stack, sample)
+}
+
 // ---- generation ----
 
 type c26Cand struct {
@@ -322,7 +330,9 @@ func c26Evolve(rng *rand.Rand, w *c26World, pool []*c26Cand, newestFirst bool) [
 }
 
 // c26AlgoHistory: repeated calls on one DefaultSelectionAlgorithm() instance.
-func c26AlgoHistory(r *mon.Run, rng *rand.Rand, sample bool) {
+// With probability 1/3 a call is followed by a call with the same candidates and
+// a context of the context dimension (crng, c26ctx.go) on the same instance.
+func c26AlgoHistory(r *mon.Run, rng, crng *rand.Rand, sample bool) {
 	w := c26NewWorld(rng)
 	algo := beacon.DefaultSelectionAlgorithm()
 	t := newC26Tracker()
@@ -353,6 +363,22 @@ func c26AlgoHistory(r *mon.Run, rng *rand.Rand, sample bool) {
 		if p != nil {
 			return
 		}
+		if crng.IntN(3) != 0 {
+			continue
+		}
+		st, beacons = c26Hand(crng, c26Order(pool, newestFirst), "algo", k)
+		st.Ctx = c26GenCtx(crng, false, 0)
+		lc := c26MakeCtx(st.Ctx)
+		t.observe(r, "", st)
+		in = append([]beacon.Beacon(nil), beacons...)
+		res = nil
+		p, stack = mon.Try(func() { res = algo.SelectBeacons(lc.ctx, in, k) })
+		lc.finish()
+		c26CtxClasses(r, st.Ctx, "history-algo")
+		t.judgeCtx(r, "algo", "history-algo", beacons, res, p, stack, false)
+		if p != nil {
+			return
+		}
 	}
 }
 
@@ -369,6 +395,10 @@ type c26DBCall struct {
 	setSize int
 	step    c26Step
 	beacons []beacon.Beacon
+	// context dimension (c26ctx.go)
+	failed        bool // the DB refused the read because the context it was given is done
+	pollsAtReturn int
+	doneAtReturn  bool
 }
 
 // c26DB is the beacon.DB the stores run on: an in-memory table that returns
@@ -448,9 +478,13 @@ type c26Query struct {
 
 // c26StoreHistory: one store (with the DefaultSelectionAlgorithm() instance it
 // creates for itself) queried for its usages while its DB changes.
-func c26StoreHistory(r *mon.Run, rng *rand.Rand, sample bool) {
+// Two of three queries are repeated with a context of the context dimension
+// (crng, c26ctx.go): the store is given the context, the DB wrapper c26CtxDB
+// honours / cancels it.
+func c26StoreHistory(r *mon.Run, rng, crng *rand.Rand, sample bool) {
 	w := c26NewWorld(rng)
 	db := &c26DB{rng: rng, newestFirst: rng.IntN(2) == 0, byContent: map[string]*c26Cand{}, w: w}
+	wdb := &c26CtxDB{c26DB: db}
 	// policies: small result sets, candidate sets and differing filters, so that
 	// the usages see different candidate lists (and different shortest beacons)
 	pol := func(t beacon.PolicyType) beacon.Policy {
@@ -472,7 +506,7 @@ func c26StoreHistory(r *mon.Run, rng *rand.Rand, sample bool) {
 			w.origins = append(w.origins, uint64(addr.MustIAFrom(addr.IA(w.origins[0]).ISD(), 0xff00_0000_0002)))
 		}
 		pols := beacon.CorePolicies{Prop: pol(beacon.PropPolicy), CoreReg: pol(beacon.CoreRegPolicy)}
-		s, err := beacon.NewCoreBeaconStore(pols, db)
+		s, err := beacon.NewCoreBeaconStore(pols, wdb)
 		if err != nil {
 			r.Inconclusive("store-setup")
 			return
@@ -487,7 +521,7 @@ func c26StoreHistory(r *mon.Run, rng *rand.Rand, sample bool) {
 		}
 	} else {
 		pols := beacon.Policies{Prop: pol(beacon.PropPolicy), UpReg: pol(beacon.UpRegPolicy), DownReg: pol(beacon.DownRegPolicy)}
-		s, err := beacon.NewBeaconStore(pols, db)
+		s, err := beacon.NewBeaconStore(pols, wdb)
 		if err != nil {
 			r.Inconclusive("store-setup")
 			return
@@ -543,6 +577,111 @@ func c26StoreHistory(r *mon.Run, rng *rand.Rand, sample bool) {
 		return true
 	}
 	rounds := 2 + rng.IntN(4)
+	srcReads := func() int { // DB reads of a query
+		if !core {
+			return 1
+		}
+		srcs, _ := db.BeaconSources(context.Background())
+		return len(srcs)
+	}
+	cls := c26CtxCls
+	// runQuery runs one query and judges the selection of every DB read; spec is
+	// the context of the context dimension, nil for context.Background().
+	runQuery := func(q c26Query, spec *c26CtxSpec, sample bool) (stop bool) {
+		kp := "C26:history:"
+		if spec != nil {
+			lc := c26MakeCtx(spec)
+			wdb.q, ctx, db.rng = &c26CtxQuery{lc: lc}, lc.ctx, crng
+			kp = "C26:ctx:" + spec.keyWhen() + ":"
+		}
+		db.calls = nil
+		var res []beacon.Beacon
+		var qerr error
+		p, stack := mon.Try(func() { res, qerr = q.run() })
+		if spec != nil {
+			lc := wdb.q.lc
+			wdb.q, ctx, db.rng = nil, context.Background(), rng
+			lc.finish()
+			c26CtxClasses(r, spec, mode)
+		}
+		if p == nil && qerr != nil {
+			if spec != nil && spec.Done {
+				// the query failed while its context is done: acceptable, not judged
+				cls("ctx/" + spec.When + "/" + mode + "/error")
+				return false
+			}
+			r.Inconclusive("store-query")
+			return true
+		}
+		calls := db.calls
+		if p != nil {
+			// the selection that panicked
+			last := -1
+			for ci, call := range calls {
+				if !call.failed {
+					last = ci
+				}
+			}
+			if last < 0 {
+				r.Violation(kp+"panic:"+mon.PanicSite(stack), fmt.Sprintf("%s panicked: %v", q.name, p),
+					&c26HistWitness{Mode: mode, Steps: t.steps})
+				return true
+			}
+			calls = calls[last : last+1]
+		}
+		// one selection per DB read; the result is the concatenation
+		owner := map[*seg.PathSegment]int{}
+		for ci, call := range calls {
+			for _, b := range call.beacons {
+				owner[b.Segment] = ci
+			}
+		}
+		parts := make([][]beacon.Beacon, len(calls))
+		foreign := 0
+		for _, b := range res {
+			ci, ok := owner[b.Segment]
+			if !ok {
+				foreign++
+				continue
+			}
+			parts[ci] = append(parts[ci], b)
+		}
+		for ci, call := range calls {
+			if call.failed {
+				cls("ctx/" + spec.When + "/" + mode + "/db-read-refused")
+				continue
+			}
+			st := call.step
+			st.Via, st.K = mode+":"+q.name, q.k
+			if spec != nil {
+				cs := *spec
+				cs.PollsBeforeSelect, cs.DoneBeforeSelect = call.pollsAtReturn, call.doneAtReturn
+				st.Ctx = &cs
+			}
+			stream := ""
+			if core {
+				stream = call.src.String()
+			}
+			t.observe(r, stream, st)
+			if spec == nil {
+				r.Event("history_store_select")
+				r.Class("history/" + mode + "/" + q.name)
+				t.judge(r, mode, call.beacons, parts[ci], p, stack, sample)
+				continue
+			}
+			if st.Ctx.DoneBeforeSelect {
+				cls("ctx/" + spec.When + "/" + mode + "/done-before-selection")
+			} else {
+				cls("ctx/" + spec.When + "/" + mode + "/live-at-selection")
+			}
+			t.judgeCtx(r, mode, mode, call.beacons, parts[ci], p, stack, false)
+		}
+		if foreign > 0 {
+			r.Violation(kp+"count", fmt.Sprintf("%s returned %d beacons that the DB did not hand over for this query", q.name, foreign),
+				&c26HistWitness{Mode: mode, Steps: t.steps})
+		}
+		return p != nil
+	}
 	for round := 0; round < rounds; round++ {
 		if round > 0 {
 			pool = c26Evolve(rng, w, pool, db.newestFirst)
@@ -552,53 +691,10 @@ func c26StoreHistory(r *mon.Run, rng *rand.Rand, sample bool) {
 		}
 		qs := rng.Perm(len(queries))
 		for _, qi := range qs[:1+rng.IntN(len(qs))] {
-			q := queries[qi]
-			db.calls = nil
-			var res []beacon.Beacon
-			var qerr error
-			p, stack := mon.Try(func() { res, qerr = q.run() })
-			if p == nil && qerr != nil {
-				r.Inconclusive("store-query")
+			if runQuery(queries[qi], nil, sample && round == rounds-1) {
 				return
 			}
-			calls := db.calls
-			if p != nil && len(calls) > 0 {
-				calls = calls[len(calls)-1:] // the selection that panicked
-			}
-			// one selection per DB read; the result is the concatenation
-			owner := map[*seg.PathSegment]int{}
-			for ci, call := range calls {
-				for _, b := range call.beacons {
-					owner[b.Segment] = ci
-				}
-			}
-			parts := make([][]beacon.Beacon, len(calls))
-			foreign := 0
-			for _, b := range res {
-				ci, ok := owner[b.Segment]
-				if !ok {
-					foreign++
-					continue
-				}
-				parts[ci] = append(parts[ci], b)
-			}
-			for ci, call := range calls {
-				st := call.step
-				st.Via, st.K = mode+":"+q.name, q.k
-				stream := ""
-				if core {
-					stream = call.src.String()
-				}
-				t.observe(r, stream, st)
-				r.Event("history_store_select")
-				r.Class("history/" + mode + "/" + q.name)
-				t.judge(r, mode, call.beacons, parts[ci], p, stack, sample && round == rounds-1)
-			}
-			if foreign > 0 {
-				r.Violation("C26:history:count", fmt.Sprintf("%s returned %d beacons that the DB did not hand over for this query", q.name, foreign),
-					&c26HistWitness{Mode: mode, Steps: t.steps})
-			}
-			if p != nil {
+			if crng.IntN(3) != 0 && runQuery(queries[qi], c26GenCtx(crng, true, srcReads()), false) {
 				return
 			}
 		}
@@ -632,9 +728,22 @@ func c26ReplayHistory(r *mon.Run, wit c26HistWitness) {
 		if wit.Mode == "core-store" && len(st.Cands) > 0 && len(st.Cands[0]) > 0 {
 			stream = addr.IA(st.Cands[0][0].IA).String()
 		}
-		t.observe(r, stream, st)
 		in := append([]beacon.Beacon(nil), beacons...)
 		var res []beacon.Beacon
+		if st.Ctx != nil {
+			// what the selection saw of the recorded context
+			st.Ctx = c26ReplaySpec(st.Ctx)
+			lc := c26MakeCtx(st.Ctx)
+			t.observe(r, stream, st)
+			p, stack := mon.Try(func() { res = algo.SelectBeacons(lc.ctx, in, st.K) })
+			lc.finish()
+			t.judgeCtx(r, wit.Mode, "replay", beacons, res, p, stack, true)
+			if p != nil {
+				return
+			}
+			continue
+		}
+		t.observe(r, stream, st)
 		p, stack := mon.Try(func() { res = algo.SelectBeacons(context.Background(), in, st.K) })
 		t.judge(r, wit.Mode, beacons, res, p, stack, true)
 		if p != nil {
